@@ -63,6 +63,7 @@ enum I {
     Load(M, usize, M),
     Store(usize, M, Op),
     NoAccess(u8),
+    Unscanned(u8, Vec<E>),
     DefGateSeq(Vec<Vec<E>>),
     Block(u8, Vec<E>, Vec<I>),
 }
@@ -173,10 +174,11 @@ const EKINDS: [&str; 10] = [
     "KGate", "KDelay", "KSetFrequency", "KSetPhase", "KSetScale", "KShiftFrequency", "KShiftPhase",
     "KPulse", "KDefWaveform", "KDefGateMatrix",
 ];
-const NKINDS: [&str; 14] = [
-    "KDeclaration", "KFence", "KFrameDefinition", "KHalt", "KWait", "KInclude", "KJump", "KLabel",
-    "KNop", "KPragma", "KReset", "KSwapPhases", "KDefGatePermutation", "KDefGatePauliSum",
+const NKINDS: [&str; 12] = [
+    "KDeclaration", "KFence", "KHalt", "KWait", "KInclude", "KJump", "KLabel", "KNop", "KPragma", "KReset",
+    "KSwapPhases", "KDefGatePermutation",
 ];
+const XKINDS: [&str; 2] = ["KFrameDefinition", "KDefGatePauliSum"];
 const BKINDS: [&str; 3] = ["KDefCal", "KDefCircuit", "KDefMeasureCal"];
 /// kinds that take exactly one expression
 fn single(k: u8) -> bool {
@@ -343,51 +345,54 @@ fn instr(i: &I) -> Instruction {
                 }),
             }),
             1 => Instruction::Fence(Fence { qubits: vec![] }),
-            2 => Instruction::FrameDefinition(FrameDefinition {
-                identifier: frame(),
-                attributes: IndexMap::from([(
-                    "INITIAL-FREQUENCY".to_string(),
-                    AttributeValue::Expression(Expression::Address(mr(&(0, 0)))),
-                )]),
-            }),
-            3 => Instruction::Halt(),
-            4 => Instruction::Wait(),
-            5 => Instruction::Include(Include {
+            2 => Instruction::Halt(),
+            3 => Instruction::Wait(),
+            4 => Instruction::Include(Include {
                 filename: "a".to_string(),
             }),
-            6 => Instruction::Jump(Jump { target: target() }),
-            7 => Instruction::Label(Label { target: target() }),
-            8 => Instruction::Nop(),
-            9 => Instruction::Pragma(Pragma {
+            5 => Instruction::Jump(Jump { target: target() }),
+            6 => Instruction::Label(Label { target: target() }),
+            7 => Instruction::Nop(),
+            8 => Instruction::Pragma(Pragma {
                 name: "READ".to_string(),
                 arguments: vec![PragmaArgument::Identifier("a".to_string())],
                 data: Some("a[0]".to_string()),
             }),
-            10 => Instruction::Reset(Reset { qubit: None }),
-            11 => Instruction::SwapPhases(SwapPhases {
+            9 => Instruction::Reset(Reset { qubit: None }),
+            10 => Instruction::SwapPhases(SwapPhases {
                 frame_1: frame(),
                 frame_2: frame(),
             }),
-            12 => Instruction::GateDefinition(GateDefinition {
+            _ => Instruction::GateDefinition(GateDefinition {
                 name: "P".to_string(),
                 parameters: vec![],
                 specification: GateSpecification::Permutation(vec![1, 0]),
             }),
-            _ => Instruction::GateDefinition(GateDefinition {
-                name: "PS".to_string(),
-                parameters: vec![],
-                specification: GateSpecification::PauliSum(
-                    PauliSum::new(
-                        vec!["q".to_string()],
-                        vec![PauliTerm::new(
-                            vec![(PauliGate::X, "q".to_string())],
-                            Expression::Address(mr(&(0, 0))),
-                        )],
-                    )
-                    .unwrap(),
-                ),
-            }),
         },
+        I::Unscanned(0, es) => {
+            let mut attributes = IndexMap::new();
+            attributes.insert("DIRECTION".to_string(), AttributeValue::String("tx".to_string()));
+            for (k, e) in es.iter().enumerate() {
+                attributes.insert(format!("ATTR-{k}"), AttributeValue::Expression(expr(e)));
+            }
+            Instruction::FrameDefinition(FrameDefinition {
+                identifier: frame(),
+                attributes,
+            })
+        }
+        I::Unscanned(_, es) => Instruction::GateDefinition(GateDefinition {
+            name: "PS".to_string(),
+            parameters: vec![],
+            specification: GateSpecification::PauliSum(
+                PauliSum::new(
+                    vec!["q".to_string()],
+                    es.iter()
+                        .map(|e| PauliTerm::new(vec![(PauliGate::X, "q".to_string())], expr(e)))
+                        .collect(),
+                )
+                .unwrap(),
+            ),
+        }),
         I::DefGateSeq(gs) => Instruction::GateDefinition(GateDefinition {
             name: "S".to_string(),
             parameters: vec![],
@@ -529,6 +534,7 @@ fn pi(i: &I) -> String {
         I::Load(d, s, o) => format!("ILoad {} {s} {}", pm(d), pm(o)),
         I::Store(d, o, s) => format!("IStore {d} {} {}", pm(o), po(s)),
         I::NoAccess(k) => format!("INoAccess {}", NKINDS[*k as usize]),
+        I::Unscanned(k, es) => format!("IUnscanned {} {}", XKINDS[*k as usize], pes(es)),
         I::DefGateSeq(gs) => format!("IDefGateSeq {}", g::list(&gs.iter().map(|p| pes(p)).collect::<Vec<_>>())),
         I::Block(k, ps, body) => format!(
             "IBlock {} {} {}",
@@ -567,7 +573,7 @@ fn exprs_of(i: &I, out: &mut Vec<E>) {
                 out.extend(es.iter().cloned())
             }
         }
-        I::Capture(_, es) => out.extend(es.iter().cloned()),
+        I::Capture(_, es) | I::Unscanned(_, es) => out.extend(es.iter().cloned()),
         I::RawCapture(_, d) => out.push(d.clone()),
         I::DefGateSeq(gs) => gs.iter().for_each(|p| out.extend(p.iter().cloned())),
         I::Block(k, ps, body) => {
@@ -580,6 +586,14 @@ fn exprs_of(i: &I, out: &mut Vec<E>) {
     }
 }
 
+fn has_ref(e: &E) -> bool {
+    match e {
+        E::Addr(_) => true,
+        E::Fun(_, x) | E::Prefix(_, x) => has_ref(x),
+        E::Infix(_, l, r) => has_ref(l) || has_ref(r),
+        _ => false,
+    }
+}
 fn region_id(name: &str) -> u64 {
     REGIONS.iter().position(|r| *r == name).map(|x| x as u64).unwrap_or(99)
 }
@@ -675,6 +689,7 @@ fn kind_name(i: &I) -> String {
         I::Load(..) => "load".into(),
         I::Store(..) => "store".into(),
         I::NoAccess(k) => format!("none-{}", &NKINDS[*k as usize][1..]),
+        I::Unscanned(k, _) => format!("unscanned-{}", &XKINDS[*k as usize][1..]),
         I::DefGateSeq(..) => "defgate-sequence".into(),
         I::Block(k, ..) => format!("block-{}", &BKINDS[*k as usize][1..]),
     }
@@ -747,7 +762,13 @@ fn one(ctx: &mut Ctx, sigs: &[(usize, Sig)], map: &ExternSignatureMap, i: &I) {
             .collect::<Vec<_>>(),
     );
     let coq = format!("({}, {}, {}, {})", psigs(sigs), pi(i), o, it);
-    ctx.run.case(coq, &desc, nontrivial, None);
+    // known finding: DEFFRAME attribute expressions / PAULI-SUM coefficients are not scanned
+    let known = match i {
+        I::Unscanned(_, es) if es.iter().any(has_ref) => Some("C27-unscanned-definition-exprs"),
+        _ => None,
+    };
+    let nontrivial = nontrivial || known.is_some();
+    ctx.run.case(coq, &desc, nontrivial, known);
 }
 
 // ---- generators -------------------------------------------------------------------------------
@@ -857,7 +878,14 @@ fn rand_instr(rng: &mut Rng, sigs: &[(usize, Sig)], depth: usize) -> I {
         14 | 15 => rand_call(rng, sigs),
         16 => I::Load(rand_m(rng), rng.below(4), rand_m(rng)),
         17 => I::Store(rng.below(4), rand_m(rng), rand_op(rng)),
-        18 => I::NoAccess(rng.below(14) as u8),
+        18 => {
+            if rng.chance(1, 3) {
+                let n = rng.range(0, 2);
+                I::Unscanned(rng.below(2) as u8, (0..n).map(|_| rand_expr(rng, 2)).collect())
+            } else {
+                I::NoAccess(rng.below(12) as u8)
+            }
+        }
         19 => {
             let n = rng.range(0, 3);
             I::DefGateSeq(
@@ -941,8 +969,12 @@ fn main() {
             }
         }
     }
-    for k in 0..14 {
+    for k in 0..12 {
         one(&mut ctx, &base_sigs, &base_map, &I::NoAccess(k));
+    }
+    for k in 0..2 {
+        one(&mut ctx, &base_sigs, &base_map, &I::Unscanned(k, vec![]));
+        one(&mut ctx, &base_sigs, &base_map, &I::Unscanned(k, vec![E::Num(2), E::Infix(4, Box::new(E::Pi), Box::new(E::Var(0)))]));
     }
     // (2) every expression of depth <= 1 in every expression-carrying kind
     let d1 = depth1();
@@ -954,6 +986,8 @@ fn main() {
         one(&mut ctx, &base_sigs, &base_map, &I::RawCapture((1, 1), e.clone()));
         one(&mut ctx, &base_sigs, &base_map, &I::DefGateSeq(vec![vec![], vec![e.clone()]]));
         one(&mut ctx, &base_sigs, &base_map, &I::Block(0, vec![e.clone()], vec![]));
+        one(&mut ctx, &base_sigs, &base_map, &I::Unscanned(0, vec![e.clone()]));
+        one(&mut ctx, &base_sigs, &base_map, &I::Unscanned(1, vec![e.clone()]));
     }
     // multi-expression forms and nesting to depth 3
     let nexpr = if args.thorough() { 6000 } else { 700 };
@@ -1036,7 +1070,7 @@ fn main() {
         "a case = (extern signatures, one instruction). Exhaustive part: CONVERT/EXCHANGE/MOVE/6 binary-logic/4 \
          arithmetic/2 unary ops/JUMP-WHEN/JUMP-UNLESS/MEASURE over 6 references (3 regions x 2 indices) and \
          literal-int / literal-real / reference operands; 5 comparisons, LOAD, STORE over 4 references (+ an \
-         undeclared region); the 14 access-free kinds; every expression of depth <= 1 over {number, pi, variable, \
+         undeclared region); the 12 access-free kinds; DEFFRAME attribute expressions and PAULI-SUM coefficients (known finding class when they contain a reference); every expression of depth <= 1 over {number, pi, variable, \
          a[0], b[0], c[1]} in each of the 10 expression-carrying kinds, CAPTURE, RAW-CAPTURE, DEFGATE AS SEQUENCE \
          and DEFCAL parameters; CALL against every signature with <= 2 parameters over {mut,const} x \
          {scalar,vector} with/without return x argument lists of length 0..3 over {identifier, reference x2, \
